@@ -1346,18 +1346,31 @@ pub fn lookup(seed: u64, focus: Focus, rep: &mut Report) {
     let rt = runtime(seed);
     rt.block_on(async {
         let mut rng = Rng::new(seed ^ 0x100C);
-        let max_nodes = *rng.pick(&[16usize, 16, 64, 4]);
+        let mut max_nodes = *rng.pick(&[16usize, 16, 64, 4]);
         let parallelism = *rng.pick(&[3usize, 3, 1, 5]);
         let query_timeout = Duration::from_secs(*rng.pick(&[4u64, 10, 60]));
         let peer_timeout = Duration::from_millis(*rng.pick(&[300u64, 2000]));
         let request_timeout = Duration::from_millis(*rng.pick(&[200u64, 1000]));
         let retries = rng.below(2) as u8;
+        // C11: answers to this node's own requests are solicited traffic whatever their number of
+        // packets; with the packet filter on and a quota far below one answer, a responder that
+        // only ever answers must still never be refused, let alone banned
+        let tight_filter = focus == Focus::C11 && rng.bool();
+        if tight_filter {
+            // no answer may be longer than what this node collects, or its tail would be unsolicited
+            max_nodes = max_nodes.max(16);
+        }
         let cfg = WorldCfg {
             stack: Stack3::V4,
             victim_enr_has_addr: true,
             request_timeout,
             request_retries: retries,
             tweak: Box::new(move |b| {
+                if tight_filter {
+                    b.enable_packet_filter();
+                    let hour = Duration::from_secs(3600);
+                    b.filter_rate_limiter(Some(discv5::RateLimiterBuilder::new().total_n_every(1000, hour).ip_n_every(2, hour).node_n_every(2, hour).build().expect("quota")));
+                }
                 b.max_nodes_response(max_nodes);
                 b.query_parallelism(parallelism);
                 b.query_timeout(query_timeout);
@@ -1376,13 +1389,18 @@ pub fn lookup(seed: u64, focus: Focus, rep: &mut Report) {
                 match rng.below(10) {
                     0 => s.w.nodes[*i].b.respond = false,
                     1 => s.w.nodes[*i].b.lose_replies = 500,
-                    2 => s.w.nodes[*i].b.records_per_packet = 1,
+                    2 if !tight_filter => s.w.nodes[*i].b.records_per_packet = 1,
                     _ => {}
                 }
             }
         }
         if rng.chance(1, 2) {
             s.w.faults = Faults3 { drop: rng.below(100), dup: rng.below(60), delay: rng.below(200), ..Default::default() };
+            if tight_filter {
+                // a duplicate or a late packet of an answer is unsolicited traffic: loss only
+                s.w.faults.dup = 0;
+                s.w.faults.delay = 0;
+            }
         }
         // C11: a few responders slip a record at an unrequested distance into their answers: the
         // record of a node that exists nowhere else, so that any trace of it is their doing
@@ -1414,6 +1432,63 @@ pub fn lookup(seed: u64, focus: Focus, rep: &mut Report) {
         }
         let nlookups = 1 + rng.usize(3);
         let vid = s.w.victim_id;
+        // Back-to-back lookups (no drain in between): leftovers of one lookup are still in flight
+        // when the next starts, so the checks that attribute wire traffic to "the" lookup are off
+        // and only what must hold regardless is judged.
+        let tight = focus != Focus::C11 && rng.chance(1, 2);
+        if tight {
+            // some nodes answer late: after the lookup gave up on them, while the transport still waits
+            for i in &all {
+                if rng.chance(1, 3) {
+                    s.w.nodes[*i].b.reply_delay = peer_timeout + Duration::from_millis(50 + rng.below(400));
+                }
+            }
+        }
+        // ---- overlapping lookups: every one of them must hand over a result ----
+        if focus != Focus::C11 && rng.chance(1, 5) {
+            let k = 2 + rng.usize(3);
+            let first = s.apis.len();
+            let t_start = s.w.now();
+            for j in 0..k {
+                let target: Id = rng.array();
+                s.api_find_node(target);
+                let gap = Duration::from_millis(*rng.pick(&[1u64, 20, 300]));
+                s.advance(gap, rep).await;
+                // start another one as soon as an earlier one has ended
+                if j + 1 == k {
+                    let deadline = s.w.now() + query_timeout;
+                    while s.w.now() < deadline && s.apis[first..].iter().all(|a| a.done.is_none()) {
+                        s.tick(rep).await;
+                        tokio::time::sleep((request_timeout / 8).max(Duration::from_millis(2))).await;
+                    }
+                    let target: Id = rng.array();
+                    s.api_find_node(target);
+                }
+            }
+            let bound = query_timeout + request_timeout * (retries as u32 + 1) * 16 + Duration::from_secs(3);
+            while s.apis[first..].iter().any(|a| a.done.is_none()) && s.w.now() < t_start + bound * 2 {
+                let n = s.tick(rep).await;
+                if n == 0 {
+                    tokio::time::sleep((request_timeout / 8).max(Duration::from_millis(2))).await;
+                }
+            }
+            for a in &s.apis[first..] {
+                rep.count("sys_overlapping_lookups");
+                match &a.done {
+                    None => s.flag(rep, Focus::C09, "C09:no-result", "a lookup running next to others never returned".into(), json!({"overlapping": k + 1})),
+                    Some((_, ApiOut::Nodes(Err(e)))) => s.flag(rep, Focus::C09, "C09:lookup-returned-error", format!("a lookup running next to others returned the error {e} instead of a result"), json!({"overlapping": k + 1})),
+                    Some((_, ApiOut::Nodes(Ok(v)))) => {
+                        let ids: HashSet<Id> = v.iter().map(|e| e.node_id().raw()).collect();
+                        if v.len() > 16 || ids.len() != v.len() {
+                            s.flag(rep, Focus::C10, "C10:more-than-k-results", format!("{} nodes ({} distinct) returned by a lookup running next to others", v.len(), ids.len()), json!({"overlapping": k + 1}));
+                        }
+                    }
+                    _ => {}
+                }
+            }
+            let pause = request_timeout * (retries as u32 + 4) + Duration::from_millis(500);
+            s.advance(pause, rep).await;
+        }
         for _ in 0..nlookups {
             let target: Id = match rng.below(4) {
                 0 => s.w.id(*rng.pick(&all)),
@@ -1426,10 +1501,23 @@ pub fn lookup(seed: u64, focus: Focus, rep: &mut Report) {
             let pos0 = s.w.trace.len();
             let call = s.apis.len();
             s.w.note(format!("lookup starts: target {} predicate {predicate} wanted {want}", hx(&target[..4])));
+            // what the lookup starts from: the table entries (all of them when there are at most k)
+            let seeds: Vec<Id> = s.w.table().iter().map(|e| e.0).collect();
             if predicate {
                 s.api_find_node_predicate(target, want);
             } else {
                 s.api_find_node(target);
+            }
+            // the user removes table entries while the lookup is running: a candidate the lookup
+            // already knows of stays a candidate
+            if !predicate && rng.chance(1, 4) && !seeds.is_empty() {
+                s.tick(rep).await;
+                for _ in 0..(1 + rng.usize(2)) {
+                    let id = *rng.pick(&seeds);
+                    let removed = s.w.discv5.remove_node(&NodeId::new(&id));
+                    s.w.note(format!("user removes {} from the table: {removed}", hx(&id[..4])));
+                    rep.count("sys_lookup_seed_removed_mid_lookup");
+                }
             }
             // run until the call returns (bounded by the query timeout plus what the transport needs)
             // The cut-off is noticed when the service task next wakes up (its query pool registers
@@ -1511,7 +1599,7 @@ pub fn lookup(seed: u64, focus: Focus, rep: &mut Report) {
                 *per_node.entry(*i).or_default() += 1;
             }
             for (i, n) in &per_node {
-                if *n > 1 {
+                if *n > 1 && !tight {
                     s.flag(rep, Focus::C09, "C09:peer-asked-twice", format!("node {i} received {n} different FINDNODE requests during one lookup"), wit.clone());
                 }
             }
@@ -1535,7 +1623,7 @@ pub fn lookup(seed: u64, focus: Focus, rep: &mut Report) {
             let cap = parallelism.max(if predicate { want } else { 16 });
             // a request that fails early (a second WHOAREYOU after a duplicated datagram, ...) frees
             // its slot without a trace on the wire: judged only when the network neither duplicates nor delays
-            if max_inflight > cap && s.w.faults.dup == 0 && s.w.faults.delay == 0 {
+            if max_inflight > cap && s.w.faults.dup == 0 && s.w.faults.delay == 0 && !tight {
                 s.flag(rep, Focus::C09, "C09:too-many-in-flight", format!("{max_inflight} lookup requests were in flight at once (parallelism {parallelism}, results wanted {})", if predicate { want } else { 16 }), wit.clone());
             }
             if max_inflight > parallelism {
@@ -1597,7 +1685,11 @@ pub fn lookup(seed: u64, focus: Focus, rep: &mut Report) {
                     EvSum::Discovered(id, _) => Some(*id),
                     _ => None,
                 }).collect();
-                let missing: Vec<String> = learned.iter().filter(|id| **id != vid && announced.contains(*id) && !contacted.contains(*id) && s.w.node_by_id(id).is_some()).map(|id| format!("{}=node{}", hx(&id[..4]), s.w.node_by_id(id).unwrap())).collect();
+                let seeds_all_taken = seeds.len() <= 16;
+                if seeds_all_taken {
+                    rep.count("sys_lookups_with_all_seeds_known");
+                }
+                let missing: Vec<String> = learned.iter().filter(|id| announced.contains(*id)).chain(seeds.iter().filter(|_| seeds_all_taken)).filter(|id| **id != vid && !contacted.contains(*id) && s.w.node_by_id(id).is_some()).map(|id| format!("{}=node{}", hx(&id[..4]), s.w.node_by_id(id).unwrap())).collect();
                 rep.count("sys_lookups_judged_for_completeness");
                 if !missing.is_empty() {
                     s.flag(rep, Focus::C10, "C10:candidate-not-contacted", format!("the lookup returned {} nodes without being cut off, yet it never contacted {} candidates it had learnt of ({:?})", result.len(), missing.len(), &missing[..missing.len().min(4)]), wit.clone());
@@ -1606,7 +1698,7 @@ pub fn lookup(seed: u64, focus: Focus, rep: &mut Report) {
             rep.fingerprint(&("sys-lookup", focus, predicate, result.len().min(17), max_inflight.min(6), cut_off, big, parallelism));
             // let every request of this lookup end (and every delayed datagram arrive) before the
             // next one starts, so that what is on the wire during a lookup belongs to it
-            let pause = request_timeout * (retries as u32 + 4) + Duration::from_millis(*rng.pick(&[10u64, 500, 3000]));
+            let pause = if tight { Duration::from_millis(*rng.pick(&[1u64, 10, 60])) } else { request_timeout * (retries as u32 + 4) + Duration::from_millis(*rng.pick(&[10u64, 500, 3000])) };
             s.advance(pause, rep).await;
         }
         s.w.faults = Faults3::default();
@@ -1622,6 +1714,9 @@ pub fn lookup(seed: u64, focus: Focus, rep: &mut Report) {
                 }
             }
             rep.count_n("sys_honest_nodes_checked_for_bans", (s.w.nodes.len() - liar_idx.len()) as u64);
+            if tight_filter {
+                rep.count_n("sys_honest_nodes_checked_for_bans_under_tight_filter", (s.w.nodes.len() - liar_idx.len()) as u64);
+            }
             for (i, pid) in &liars {
                 if s.w.events.iter().any(|(_, e)| matches!(e, EvSum::Discovered(id, _) if id == pid)) || s.w.table().iter().any(|e| e.0 == *pid) {
                     s.flag(rep, Focus::C11, "C11:off-distance-record-accepted", format!("the record node {i} returned at a distance that was not requested surfaced (Discovered event or table entry)"), json!({"node": i}));
